@@ -2,34 +2,45 @@
 # selftest/run.sh [property]  — must-fail corpus (selftest/mutants) and must-pass corpus (selftest/harmless).
 # Each patch is applied to a scratch copy of /repo (outside /repo and /verif, removed afterwards); the property's quick
 # check is run against the copy (VERIF_REPO) and must report a VIOLATION (mutants) or exit 0 (harmless).
+# SELFTEST_JOBS cases run side by side (default 3), each in its own copy.
 here="$(cd "$(dirname "$0")/.." && pwd)"
 scratch="$(mktemp -d /tmp/bklverif-selftest.XXXXXX)"
 trap 'rm -rf "$scratch"' EXIT
-rsync -a --exclude .git --exclude testdata /repo/ "$scratch/repo/"
-# a snapshot of the machinery as well (tool binary, spec, ledgers, findings; the solver cache is shared read-mostly):
-# the corpus takes an hour, and the results must not depend on what happens to /verif meanwhile
+jobs="${SELFTEST_JOBS:-3}"
+# a snapshot of the machinery as well (tool binary, spec, ledgers, findings, solver cache): the corpus takes a long time,
+# and the results must not depend on what happens to /verif meanwhile
 snap="$scratch/verif"; mkdir -p "$snap/work"
 for d in bin spec ledger contracts selftest known-findings.jsonl assumed-obligations.jsonl properties.jsonl; do cp -a "$here/$d" "$snap/"; done
 cp -a "$here/work/cache" "$snap/work/" 2>/dev/null
-export VERIF_DIR="$snap"
-here_bin="$snap/bin/bklverif"
-fail=0; n=0
+for j in $(seq 1 "$jobs"); do rsync -a --exclude .git --exclude testdata /repo/ "$scratch/repo$j/"; done
+list="$scratch/list"; : > "$list"
 for kind in mutants harmless; do
   for p in "$here"/selftest/$kind/*.patch; do
     [ -e "$p" ] || continue
     b="$(basename "$p" .patch)"; prop="${b%%-*}"
     [ -n "$1" ] && [ "$1" != "$prop" ] && continue
-    n=$((n+1))
-    if ! patch -s -p1 -d "$scratch/repo" < "$p"; then echo "SELFTEST-BROKEN $b: patch does not apply"; fail=1; continue; fi
-    out="$(VERIF_REPO="$scratch/repo" "$here_bin" check "$prop" quick 2>&1)"; rc=$?
-    patch -s -R -p1 -d "$scratch/repo" < "$p"
-    if [ $kind = mutants ]; then
-      if [ $rc -eq 1 ] && echo "$out" | grep -q '^VIOLATION'; then echo "ok   caught  $b  ($(echo "$out" | grep -c '^VIOLATION') obligations)";
-      else echo "MISS         $b (exit $rc)"; fail=1; fi
-    else
-      if [ $rc -eq 0 ]; then echo "ok   quiet   $b"; else echo "FALSE-ALARM  $b (exit $rc)"; echo "$out" | grep '^VIOLATION' | head -3; fail=1; fi
-    fi
+    echo "$kind $p" >> "$list"
   done
 done
-echo "selftest: $n cases, fail=$fail"
-exit $fail
+one() { # one <slot> <kind> <patch>
+  slot="$1"; kind="$2"; p="$3"; b="$(basename "$p" .patch)"; prop="${b%%-*}"; repo="$scratch/repo$slot"
+  if ! patch -s -p1 -d "$repo" < "$p"; then echo "SELFTEST-BROKEN $b: patch does not apply"; return; fi
+  out="$(VERIF_DIR="$snap" VERIF_REPO="$repo" "$snap/bin/bklverif" check "$prop" quick 2>&1)"; rc=$?
+  patch -s -R -p1 -d "$repo" < "$p"
+  if [ "$kind" = mutants ]; then
+    if [ $rc -eq 1 ] && echo "$out" | grep -q '^VIOLATION'; then echo "ok   caught  $b  ($(echo "$out" | grep -c '^VIOLATION') obligations)";
+    else echo "MISS         $b (exit $rc)"; fi
+  else
+    if [ $rc -eq 0 ]; then echo "ok   quiet   $b"; else echo "FALSE-ALARM  $b (exit $rc)"; echo "$out" | grep '^VIOLATION' | head -3; fi
+  fi
+}
+export -f one; export scratch snap
+# slot i takes lines i, i+jobs, i+2*jobs, ...
+for j in $(seq 1 "$jobs"); do
+  ( awk -v j="$j" -v n="$jobs" '(NR-1)%n==j-1' "$list" | while read -r kind p; do one "$j" "$kind" "$p"; done ) > "$scratch/out$j" &
+done
+wait
+cat "$scratch"/out* | sort -k3
+n=$(wc -l < "$list"); bad=$(cat "$scratch"/out* | grep -c "^MISS\|^FALSE-ALARM\|^SELFTEST-BROKEN")
+echo "selftest: $n cases, fail=$([ "$bad" -gt 0 ] && echo 1 || echo 0) ($bad not as expected)"
+[ "$bad" -eq 0 ]
